@@ -148,6 +148,72 @@ def rebind(mode: int, place: int, nm: int, depth: int, follow: int) -> bool:
     return True
 
 
+HOLDERS = ["child space DC", "grandchild space DC.G"]
+HTARGETS = ["the parametric root D", "cells of the root", "the holder's parent chain: DC", "cells of DC", "the holder itself", "outside space", "cells outside"]
+
+
+@harness
+def descendant_holder(mode: int, holder: int, tgt: int, nm: int, follow: int) -> bool:
+    """The reference is defined in a child / grandchild space of the parametric space; in an ItemSpace it must denote the
+    corresponding object of the dynamic tree (the instance root included), or stay absolute."""
+    mode, holder, tgt, nm, follow = pick(mode, 0, 2), pick(holder, 0, 1), pick(tgt, 0, 6), pick(nm, 0, 2), pick(follow, 0, 1)
+    dn, on = NAMES[nm]
+    mode = MODES[mode]
+    label("mode=%s held by %s -> %s names=(%s,%s)" % (mode, HOLDERS[holder], HTARGETS[tgt], dn, on))
+    with notrace():
+        m = new_model("Y")
+        D = m.new_space(dn, formula="lambda n: None")
+        D.new_cells("df", formula="lambda: n")
+        DC = D.new_space("DC")
+        DC.new_cells("dcf", formula="lambda: n + 1")
+        G = DC.new_space("G")
+        G.new_cells("gf", formula="lambda: n + 2")
+        O = m.new_space(on)
+        O.new_cells("of", formula="lambda: 3")
+        H = DC if holder == 0 else G
+        hpath = ("DC",) if holder == 0 else ("DC", "G")
+        targets = [(D, ()), (D.df, ("df",)), (DC, ("DC",)), (DC.dcf, ("DC", "dcf")), (H, hpath), (O, None), (O.of, None)]
+        target, rel = targets[tgt]
+    c = call(H.set_ref, "r", target, mode)
+    if mode == "relative" and rel is None:
+        if c[0] == "err":
+            return True
+        it = call(lambda: _get(D[1], hpath).r)
+        return check(it[0] == "err" or it[1] is target, "out-of-scope relative reference is refused or stays absolute, never rebound", lambda: it)
+    if not check(c[0] == "ok", "reference creation raised", lambda: c):
+        return False
+    for step in range(follow + 1):
+        if step == 1:
+            label("write and read")
+            with notrace():
+                d = _os.path.join(_os.environ.get("VERIF_SCRATCH", "/tmp"), "c10h_%d" % _os.getpid())
+                _sh.rmtree(d, ignore_errors=True)
+                mx.write_model(m, d)
+                m2 = mx.read_model(d, name="Y2")
+                ctx.models.append(m2)
+                _sh.rmtree(d, ignore_errors=True)
+                D, O = getattr(m2, dn), getattr(m2, on)
+                target = _get(D, rel) if rel is not None else (O if tgt == 5 else O.of)
+        for arg in (1, 2):
+            it = call(lambda: D[arg])
+            if not check(it[0] == "ok", "ItemSpace can be created", lambda: it):
+                return False
+            rr = call(lambda: _get(it[1], hpath).r)
+            if not check(rr[0] == "ok", "reference readable in the ItemSpace", lambda: rr):
+                return False
+            exp = target if (mode == "absolute" or rel is None) else _get(it[1], rel)
+            with notrace():
+                ok = rr[1] is exp
+                detail = (getattr(rr[1], "fullname", repr(rr[1])), exp.fullname)
+            if not check(ok, "reference held by a descendant denotes the corresponding object of the dynamic tree", lambda: detail):
+                return False
+            if tgt in (0, 1) and mode != "absolute":       # and it computes with the instance's parameter
+                v = call(lambda: (rr[1].df if tgt == 0 else rr[1])())
+                if not check(v[0] == "ok" and v[1] == arg, "rebound reference evaluates inside the instance", lambda: v):
+                    return False
+    return True
+
+
 QUERIES = [
     Query("rebind", rebind, pre=["0 <= mode < 3", "0 <= place < 6", "0 <= nm < 3", "1 <= depth <= 2", "0 <= follow < 4"],
           partitions=lambda tier, seed: ([dict(mode=mo, nm=n, follow=[0, 2]) for mo in range(3) for n in range(3)] + [dict(mode=mo, nm=2, follow=3, depth=1) for mo in range(3)])
@@ -158,4 +224,11 @@ QUERIES = [
                                "follow_up": FOLLOW},
           outside=["descendant targets under static derivation (child spaces are not inherited; unspecified)", "ItemSpaces nested in ItemSpaces", "more than one follow-up operation"]),
 ]
+QUERIES.append(
+    Query("descendant_holder", descendant_holder, pre=["0 <= mode < 3", "0 <= holder < 2", "0 <= tgt < 7", "0 <= nm < 3", "0 <= follow < 2"],
+          partitions=lambda tier, seed: [dict(mode=mo, holder=h, follow=0 if tier == "quick" else [0, 1], nm=2 if tier == "quick" else [0, 2]) for mo in range(3) for h in range(2)] +
+          [dict(mode=0, holder=0, follow=1, nm=[0, 1])],
+          natives=[dict(mode=mo, holder=h, tgt=t, nm=n, follow=f) for (mo, h, t, n, f) in ((0, 0, 0, 2, 0), (0, 1, 0, 0, 1), (1, 0, 1, 2, 0), (2, 1, 4, 1, 0), (0, 0, 5, 0, 0), (1, 1, 3, 2, 1), (0, 1, 4, 2, 0))],
+          bounds=lambda tier: {"holders": HOLDERS, "targets": HTARGETS, "modes": MODES, "instances": "D[1], D[2]", "follow_up": ["none", "write and read"]},
+          outside=["static derivation of references held by child spaces (child spaces are not inherited)"]))
 BUDGET = {"quick": 420, "thorough": 1200}
